@@ -71,7 +71,8 @@ Proof.
     destruct (rp_term st) as [[|]|]; try exact Hcanary.
     destruct (wl_exists w && negb (wl_consistent w)); [discriminate|].
     destruct (do_finalising_bg _ _ _ _ _ _) as [[[d s1] b'] an]. discriminate.
-  - destruct (do_finalising_bg _ _ _ _ _ _) as [[[d s1] b'] an]. discriminate.
+  - destruct (wl_exists w && negb (wl_consistent w)); [discriminate|].
+    destruct (do_finalising_bg _ _ _ _ _ _) as [[[d s1] b'] an]. discriminate.
 Qed.
 
 (* C02 for blue-green: the upgrade reports "done" (state moves to traffic routing) only behind a BatchRelease that carries
@@ -244,4 +245,123 @@ Proof.
   - exfalso. pose proof (observed_sub_keeps w u) as Hk. cbn zeta in Hk. destruct Hk as [Ki [Kst _]].
     unfold gated_sub_bg in G. rewrite Kst, Hst, Ki, Hcur, Hp in G. destruct (su_state v); try discriminate.
     rewrite andb_false_r in G. discriminate.
+Qed.
+
+(* ---------- C07 for blue-green: a quiet reconcile is waiting for somebody else ---------- *)
+Lemma bg_upgrade_quiet sp u w br u' br' : bg_upgrade sp u w br = COut u' br' false -> br' = br -> su_state u' = su_state u ->
+  su_state u = StTraffic \/ br_waiting sp u w br = true.
+Proof.
+  intros H Hbr Hs. unfold bg_upgrade in H. unfold br_waiting. destruct br as [b|].
+  - destruct (br_spec_eqb b _) eqn:E1; cbn [negb] in H.
+    + destruct (br_consistent b) eqn:E2; cbn [negb] in H; [|right; rewrite andb_true_l; reflexivity].
+      destruct (negb (br_state_ready b) || (br_batch b + 1 <? su_idx u)) eqn:E3.
+      { right. rewrite andb_true_l. cbn [negb orb]. exact E3. }
+      injection H as <- _. cbn in Hs. left. symmetry. exact Hs.
+    + injection H as _ <-. injection Hbr as Hb. rewrite Hb, br_spec_eqb_refl in E1. discriminate.
+  - injection H as _ <-. discriminate.
+Qed.
+
+Lemma bg_step_quiet sp u w br cur u' br' :
+  get_step sp (su_idx u) = Some cur -> bg_step sp u w br cur = COut u' br' false ->
+  br' = br -> su_idx u' = su_idx u -> su_state u' = su_state u ->
+  su_state u = StCompleted \/ waits_rolling_bg sp u w br = true.
+Proof.
+  intros Hcur H Hbr Hi Hs. unfold bg_step in H. unfold waits_rolling_bg. destruct (su_state u) eqn:Hst.
+  - (* Init falls into the upgrade: the state is Upgrade or TrafficRouting afterwards *)
+    exfalso. set (u1 := upd_sub u (su_idx u) (su_next u) StUpgrade (su_fin u) false) in *.
+    destruct (bg_upgrade_cursor sp u1 w br u' br' false H) as [_ [E|[E _]]]; rewrite E in Hs; discriminate.
+  - right. destruct (bg_upgrade_quiet sp u w br u' br' H Hbr) as [E|E]; [rewrite Hs, Hst; reflexivity|congruence|exact E].
+  - discriminate.
+  - injection H as <- _. cbn in Hs. discriminate.
+  - right. unfold manual_pause. rewrite Hcur. cbn [andb negb].
+    destruct (sp_pause cur) as [d|]; [|reflexivity].
+    destruct (su_elapsed u || (d <=? 0)); [injection H as <- _; cbn in Hs; discriminate|discriminate].
+  - destruct (su_idx u <? nsteps sp); injection H as <- _; cbn in Hs; discriminate.
+  - left. reflexivity.
+  - right. reflexivity.
+Qed.
+
+Lemma waits_rolling_bg_ext sp u1 u2 w br : su_idx u1 = su_idx u2 -> su_state u1 = su_state u2 ->
+  waits_rolling_bg sp u1 w br = waits_rolling_bg sp u2 w br.
+Proof. intros H1 H2. unfold waits_rolling_bg, br_waiting, manual_pause. rewrite H1, H2. reflexivity. Qed.
+
+Lemma run_bg_quiet sp u w br u' br' :
+  run_bg sp u w br = COut u' br' false ->
+  (su_next u = next_index (nsteps sp) (su_idx u) \/ su_next u <= 0) ->
+  synced_br u br = br -> br' = br -> su_idx u' = su_idx u -> su_state u' = su_state u ->
+  su_state u = StCompleted \/ waits_rolling_bg sp u w br = true.
+Proof.
+  intros H Hnext Hal Hbr Hi' Hs'. unfold run_bg in H. destruct (sync_br u br) as [u1 brs] eqn:Hs.
+  pose proof (sync_fill_keeps u br w) as Hk. cbn zeta in Hk. rewrite Hs in Hk. cbn [fst] in Hk.
+  destruct Hk as [Hi [Hst [Hn [He _]]]].
+  pose proof (sync_br_is_synced u br) as Hsy. rewrite Hs in Hsy. cbn [snd] in Hsy. rewrite Hal in Hsy. subst brs.
+  set (u2 := fill_pth u1 w) in *.
+  unfold do_jump in H. destruct (get_step sp (su_idx u2)) as [cur|] eqn:Hcur; [|discriminate].
+  assert (Hnj : negb (su_next u2 =? next_index (nsteps sp) (su_idx u2)) && (0 <? su_next u2) = false).
+  { rewrite Hn, Hi. destruct Hnext as [Hx|Hx]; [rewrite Hx, Z.eqb_refl; reflexivity|].
+    apply andb_false_iff. right. apply Z.ltb_ge. exact Hx. }
+  rewrite Hnj in H.
+  destruct (bg_step_quiet sp u2 w br cur u' br' Hcur H Hbr) as [C|W].
+  - rewrite Hi', Hi. reflexivity.
+  - rewrite Hs', Hst. reflexivity.
+  - left. rewrite <- Hst. exact C.
+  - right. rewrite <- (waits_rolling_bg_ext sp u2 u w br Hi Hst). exact W.
+Qed.
+
+Theorem bg_quiet_rolling_is_waiting sp st w br m u x y :
+  reconcile_bg sp st w br = ROut m ->
+  rp_phase st = RpProgressing -> rs_deleting sp = false ->
+  rp_prog st = Some (PrInRolling, x, y) -> rp_sub st = Some u ->
+  (su_next u = next_index (nsteps sp) (su_idx u) \/ su_next u <= 0) ->
+  (sempty (su_hash u) = true \/ su_hash u = rs_hash sp) ->
+  wl_canary w = su_canary_rev u ->
+  synced_br (observed_sub w u) br = br ->
+  o_requeue m = false -> o_br m = br ->
+  (forall s', o_status m = Some s' -> rp_prog s' = rp_prog st /\ exists v, rp_sub s' = Some v /\ su_idx v = su_idx u /\ su_state v = su_state u) ->
+  o_status m <> None ->
+  wl_exists w = false \/ wl_consistent w = false \/
+  waits_rolling_bg sp (observed_sub w u) w br = true.
+Proof.
+  intros H Hph Hdel Hprog Hu Hnext Hhash Hrev Hal Hrq Hbr Hq Hsome'.
+  pose proof (observed_sub_keeps w u) as Hk. cbn zeta in Hk. destruct Hk as [Ki [Kst [Kn [Ke [Kh [Kc Kf]]]]]].
+  unfold reconcile_bg in H. destruct (calc_status sp st w) as [|s] eqn:Hcalc.
+  { unfold reconcile in H. rewrite Hcalc in H. injection H as <-. cbn in Hsome'. congruence. }
+  rewrite Hph in H.
+  destruct (progressing_bg sp st s w br) as [| |po] eqn:Hp; try discriminate.
+  { injection H as <-. cbn in Hsome'. congruence. }
+  injection H as <-. cbn in Hrq, Hbr, Hq. clear Hsome'.
+  destruct (Hq _ eq_refl) as [Hqp [v [Hv [Hvi Hvs]]]]. clear Hq.
+  destruct (wl_exists w) eqn:Hex; [|left; reflexivity].
+  destruct (wl_consistent w) eqn:Hco; [|right; left; reflexivity].
+  right. right.
+  unfold progressing_bg in Hp. rewrite Hprog, Hex, Hco in Hp. cbn [negb orb] in Hp.
+  destruct (calc_status_sub _ _ _ _ _ Hcalc Hu Hdel Hph) as [Hnone|[Hsome Hsp]].
+  - unfold in_rolling_bg in Hp. rewrite Hu, Hnone in Hp. discriminate.
+  - unfold in_rolling_bg in Hp. rewrite Hu, Hsome in Hp.
+    assert (Hrd : negb (String.eqb (wl_canary w) (su_canary_rev u)) = false) by (rewrite Hrev, String.eqb_refl; reflexivity).
+    rewrite Hrd in Hp. rewrite !andb_false_r in Hp. cbn [andb orb] in Hp.
+    destruct (rs_paused sp) eqn:Hpa.
+    { cbn [orb] in Hp. exfalso. unfold in_rolling in Hp. rewrite Hu, Hsome, Hrd, Hpa in Hp. rewrite !andb_false_r in Hp. cbn [andb] in Hp.
+      injection Hp as <-. cbn in Hqp. rewrite Hprog in Hqp. discriminate. }
+    cbn [orb] in Hp.
+    assert (Hhc : negb (sempty (su_hash u)) && negb (String.eqb (su_hash u) (rs_hash sp)) = false).
+    { destruct Hhash as [He|He]; [rewrite He; reflexivity|rewrite He, String.eqb_refl; apply andb_false_r]. }
+    rewrite Hhc in Hp. cbn [orb] in Hp.
+    destruct (sstate_eqb (su_state (observed_sub w u)) StCompleted) eqn:Hc.
+    { exfalso. unfold in_rolling in Hp. rewrite Hu, Hsome, Hrd, Hpa, Hhc, Hc in Hp. rewrite !andb_false_r in Hp. cbn [andb] in Hp.
+      injection Hp as <-. cbn in Hqp. rewrite Hprog in Hqp. discriminate. }
+    set (nx := if (su_next u <=? 0) || (nsteps sp <? su_next u) then next_index (nsteps sp) (su_idx u) else su_next u) in *.
+    set (u2 := upd_sub (observed_sub w u) (su_idx (observed_sub w u)) nx (su_state (observed_sub w u)) (su_fin (observed_sub w u)) (su_elapsed (observed_sub w u))) in *.
+    destruct (run_bg sp u2 w br) as [|u' br' rq] eqn:Hrun; [discriminate|].
+    injection Hp as <-. cbn in Hrq, Hbr, Hv. subst rq. injection Hv as <-.
+    assert (Hnx : su_next u2 = next_index (nsteps sp) (su_idx u2) \/ su_next u2 <= 0).
+    { left. unfold u2. cbn. rewrite Ki. unfold nx. destruct Hnext as [Hx|Hx].
+      - rewrite Hx. match goal with |- (if ?c then _ else _) = _ => destruct c; reflexivity end.
+      - replace (su_next u <=? 0) with true by (symmetry; apply Z.leb_le; exact Hx). reflexivity. }
+    assert (Hal2 : synced_br u2 br = br) by (rewrite <- (synced_br_ext (observed_sub w u) u2 br) by (unfold u2; cbn; auto); exact Hal).
+    destruct (run_bg_quiet sp u2 w br u' br' Hrun Hnx Hal2 Hbr) as [C|W].
+    + unfold u2. cbn. rewrite Hvi, Ki. reflexivity.
+    + unfold u2. cbn. rewrite Hvs, Kst. reflexivity.
+    + unfold u2 in C. cbn in C. rewrite C in Hc. cbn in Hc. discriminate.
+    + rewrite (waits_rolling_bg_ext sp (observed_sub w u) u2 w br) by (unfold u2; cbn; auto). exact W.
 Qed.
